@@ -770,17 +770,17 @@ func gen(c *hxlib.Ctx) {
 			Nontrivial: true, OracleErr: msg})
 	}
 
-	// 1. boundary values  +-2^k + {-2..2}.  quick: every k <= 130 and k = -1,0,1 mod 8 up to 300
+	// 1. boundary values  +-2^k + {-2..2}.  quick: every k <= 72 and k = -1,0,1 mod 8 up to 300
 	nfmt := 0
 	for k := 0; k <= 300; k++ {
-		if !thorough && k > 130 && !(k%8 == 0 || k%8 == 1 || k%8 == 7) {
+		if !thorough && k > 72 && !(k%8 == 0 || k%8 == 1 || k%8 == 7) {
 			continue
 		}
 		for _, neg := range []bool{false, true} {
 			for d := int64(-2); d <= 2; d++ {
 				v := boundary(k, neg, d)
 				emitEnc("enc-boundary", v)
-				if thorough || k <= 66 || (k%8 == 0 && d == 0) || r.Intn(12) == 0 {
+				if thorough || (k <= 66 && (d != 2 && d != -2 || k%8 == 0 || k%8 == 7)) || (k%8 == 0 && d == 0) || r.Intn(16) == 0 {
 					emitFmt("fmt-boundary", v)
 					nfmt++
 				}
@@ -812,11 +812,11 @@ func gen(c *hxlib.Ctx) {
 				emitDec("dec-2", []byte{a, b})
 			}
 		}
-		for i := 0; i < 350; i++ {
+		for i := 0; i < 250; i++ {
 			emitDec("dec-2", []byte{byte(r.Intn(256)), byte(r.Intn(256))})
 		}
 	}
-	for i := 0; i < c.N(500); i++ {
+	for i := 0; i < c.N(350); i++ {
 		n := []int{3, 4, 7, 8, 8, 8, 9, 9, 9, 10, 11, 16, 17, 32, 33, 40}[r.Intn(16)]
 		b := make([]byte, n)
 		r.Read(b)
@@ -843,7 +843,7 @@ func gen(c *hxlib.Ctx) {
 			}
 		}
 	}
-	for i := 0; i < c.N(900); i++ {
+	for i := 0; i < c.N(700); i++ {
 		kind, s := genText(r)
 		emitText(kind, s, false)
 		if isASCIIPrintable(s) && i%4 == 0 {
@@ -906,7 +906,7 @@ func replay(raw json.RawMessage) string {
 func main() {
 	hxlib.Main(hxlib.Spec{
 		ID: "C24",
-		Rule: "values: +-2^k + {-2..2} for k <= 300 (quick: every k <= 130, then k = 7,0,1 mod 8) and random values of 8..300 bits incl. long runs of ones/zeros, both signs, run through BigIntToBytes and, when in range, Int64ToBytes/Uint64ToBytes/SizeToBytes and the Format functions; " +
+		Rule: "values: +-2^k + {-2..2} for k <= 300 (quick: every k <= 72, then k = 7,0,1 mod 8) and random values of 8..300 bits incl. long runs of ones/zeros, both signs, run through BigIntToBytes and, when in range, Int64ToBytes/Uint64ToBytes/SizeToBytes and the Format functions; " +
 			"byte strings: [], all 1-byte strings, 2-byte strings (edge grid + random sample; all 65536 in the thorough tier), random strings of 3..40 bytes with critical first/second bytes and long sign extensions, run through every decoder; " +
 			"texts: a fixed list of special strings, and canonical hex texts with one deviation class each (upper case, 0X, leading zeros, no prefix, decimal, sign variants, other base prefixes, underscores valid/invalid, junk byte, truncation, random, width boundaries), run through ParseBigInt, ParseInt/ParseUint at 16/32/64 bits, a subset also through the HexInt* UnmarshalJSON methods as JSON strings and as raw tokens; " +
 			"non-trivial = every case except the empty byte string; distinct = distinct Coq case term",
